@@ -1,12 +1,13 @@
 use std::collections::HashMap;
 use std::hash::BuildHasherDefault;
-use std::sync::Arc;
 #[cfg(not(rten_verif_loom))]
-use std::sync::Mutex;
+use std::sync::{Arc, Mutex};
 
 // Verification hook: model-check the plan cache lock with loom.
 #[cfg(rten_verif_loom)]
 use loom::sync::Mutex;
+#[cfg(rten_verif_loom)]
+use std::sync::Arc;
 use std::time::Duration;
 
 use rayon::prelude::*;
